@@ -50,6 +50,7 @@ var props = []propSpec{
 			{Name: "HarnessC13Float32", Bounds: "float32 carriers 0.1, 0.7, 2.3, 0.001, 16777.215, 0.5 against a bound equal to their exact value or one of its float64 neighbours; helpers, schema validation, parameter validation"},
 			{Name: "HarnessC13HugeBounds", Bounds: "maximum / minimum (inclusive / exclusive) picked from {1e30, -1e30, 9.3e18, -9.3e18, 1.85e19, 1e19} (beyond int64, some beyond uint64) against fully symbolic int64, int8, uint64, uint8 values; oracle in integer arithmetic; helpers and schema validation"},
 			{Name: "HarnessC13MultipleOfDecimal", Bounds: "multipleOf on decimal fractions (<= 6 fractional digits): 11 values x sign x 7 factors, oracle = exact arithmetic on the values scaled by 10^6; helper, schema validation, parameter validation"},
+			{Name: "HarnessC13JSONNumberWide", Bounds: "integer literals beyond 2^53 (4 picks) as json.Number vs the int64 carrying the same number; maximum / minimum at +-2^53 (inclusive / exclusive) or multipleOf 2; type number / integer / none"},
 			{Name: "HarnessC13JSONNumber", Bounds: "json.Number carriers (integer literals from 7 picks incl. ±(2^53-1), fractional literals from 4 picks incl. \"3.0\") vs the float64 carrying the same number, maximum from 4 picks, type absent / number / integer"},
 			{Name: "HarnessC13MultipleOfInt", Bounds: "MultipleOfInt/Uint: |data| <= 2^31 (2^32 unsigned), 0 < factor <= 2^16"},
 		},
